@@ -793,4 +793,195 @@ theorem rawRun_eq_parseOne (hP : LxStable (lexPrimM true)) (hC : FlushCoupled) (
   exact rawRun_single hC _
 
 
+/-! ## `WithLenRecognizerDecoder`: a frame costs exactly its announced length -/
+
+/-- Bytes of the current frame body the decoder still has to take from the input (`none` = between frames). -/
+def WLState.owed : WLState → Option Nat
+  | .header => none
+  | .body r => some r
+  | .afterBody r _ => some r
+  | .discarding r _ => some r
+
+theorem decodeB_len (d : Raw) (buf : List Nat) : (d.decodeB buf).2.1.length ≤ buf.length := by
+  unfold Raw.decodeB
+  split
+  · simp
+  · split; simp only [List.length_drop]; omega
+
+theorem decodeEofB_len (d : Raw) (buf : List Nat) : (d.decodeEofB buf).1.length ≤ buf.length := by
+  unfold Raw.decodeEofB
+  split
+  · simp
+  · split; simp only [List.length_drop]; omega
+
+/-- `consume_bounded` takes from the buffer exactly the bytes it reports, never more than the message still has. -/
+theorem consumeBounded_spec (inner : Raw) (remaining : Nat) (src : List Nat) :
+    (consumeBounded inner remaining src).2.1.length ≤ src.length ∧
+    src.length - (consumeBounded inner remaining src).2.1.length = (consumeBounded inner remaining src).2.2.1 ∧
+    (consumeBounded inner remaining src).2.2.1 ≤ remaining := by
+  simp only [consumeBounded]
+  have hpart : (src.take (min remaining src.length)).length = min remaining src.length := by
+    simp only [List.length_take]; omega
+  have hr : ∀ r : Raw × List Nat × Out, r.2.1.length ≤ (src.take (min remaining src.length)).length →
+      (if remaining = (src.take (min remaining src.length)).length - r.2.1.length then src.drop (min remaining src.length)
+        else r.2.1 ++ src.drop (min remaining src.length)).length ≤ src.length ∧
+      src.length - (if remaining = (src.take (min remaining src.length)).length - r.2.1.length then
+          src.drop (min remaining src.length) else r.2.1 ++ src.drop (min remaining src.length)).length =
+        (src.take (min remaining src.length)).length - r.2.1.length ∧
+      (src.take (min remaining src.length)).length - r.2.1.length ≤ remaining := by
+    intro r hle
+    rw [hpart] at hle ⊢
+    split
+    · simp only [List.length_drop]; omega
+    · simp only [List.length_append, List.length_drop]; omega
+  by_cases he : remaining ≤ (src.take (min remaining src.length)).length
+  · simp only [he, ↓reduceIte]
+    exact hr ({}, (inner.decodeEofB (src.take (min remaining src.length))).1, (inner.decodeEofB (src.take (min remaining src.length))).2)
+      (decodeEofB_len inner _)
+  · simp only [he, ↓reduceIte]
+    exact hr _ (decodeB_len inner _)
+
+/-- What one `decode` call does to a frame that still owes `r` bytes. -/
+structure Accounted (r : Nat) (src : List Nat) (res : WL × List Nat × Out) : Prop where
+  len : res.2.1.length ≤ src.length
+  /-- the frame is finished exactly when its `r` bytes have been taken — not one more -/
+  done : res.1.state = .header → src.length - res.2.1.length = r
+  /-- otherwise the debt shrinks by what was taken, and nothing is delivered yet -/
+  more : res.1.state ≠ .header →
+    res.1.state.owed = some (r - (src.length - res.2.1.length)) ∧ src.length - res.2.1.length ≤ r ∧ res.2.2 = .none
+
+theorem WL_decode_owed : ∀ (fuel : Nat) (w : WL) (src : List Nat) (r : Nat), w.state.owed = some r →
+    w.state ≠ .header → Accounted r src (WL.decode fuel w src)
+  | 0, w, src, r, h, hne => by
+    refine ⟨by simp [WL.decode], fun hh => absurd hh (by simpa [WL.decode] using hne), fun _ => ?_⟩
+    simp [WL.decode, h]
+  | fuel + 1, w, src, r, h, hne => by
+    cases hs : w.state with
+    | header => exact absurd hs hne
+    | afterBody rem v =>
+      rw [hs] at h; simp only [WLState.owed, Option.some.injEq] at h; subst h
+      simp only [WL.decode, hs]
+      by_cases hle : rem ≤ src.length
+      · simp only [hle, ↓reduceIte]
+        refine ⟨?_, ?_, ?_⟩
+        · simp
+        · intro _; simp only [List.length_drop]; omega
+        · intro hh; exact absurd rfl hh
+      · simp only [hle, ↓reduceIte]
+        refine ⟨?_, ?_, ?_⟩
+        · simp
+        · intro hh; cases hh
+        · intro _
+          refine ⟨?_, ?_, rfl⟩
+          · simp only [WLState.owed, List.length_nil, Option.some.injEq]; omega
+          · simp only [List.length_nil]; omega
+    | discarding rem e =>
+      rw [hs] at h; simp only [WLState.owed, Option.some.injEq] at h; subst h
+      simp only [WL.decode, hs]
+      by_cases hle : rem ≤ src.length
+      · simp only [hle, ↓reduceIte]
+        refine ⟨?_, ?_, ?_⟩
+        · simp
+        · intro _; simp only [List.length_drop]; omega
+        · intro hh; exact absurd rfl hh
+      · simp only [hle, ↓reduceIte]
+        refine ⟨?_, ?_, ?_⟩
+        · simp
+        · intro hh; cases hh
+        · intro _
+          refine ⟨?_, ?_, rfl⟩
+          · simp only [WLState.owed, List.length_nil, Option.some.injEq]; omega
+          · simp only [List.length_nil]; omega
+    | body rem =>
+      rw [hs] at h; simp only [WLState.owed, Option.some.injEq] at h; subst h
+      obtain ⟨c1, c2, c3⟩ := consumeBounded_spec w.inner rem src
+      simp only [WL.decode, hs]
+      rcases hcb : consumeBounded w.inner rem src with ⟨inner', src', consumed, o⟩
+      rw [hcb] at c1 c2 c3
+      simp only at c1 c2 c3
+      -- after an error: skip the rest of the frame
+      have herr : ∀ e : Out, Accounted rem src
+          (if rem - consumed ≤ src'.length then
+            (({ inner := inner', state := .header } : WL), src'.drop (rem - consumed), e)
+           else WL.decode fuel { inner := inner', state := .discarding (rem - consumed - src'.length) e } []) := by
+        intro e
+        by_cases hle : rem - consumed ≤ src'.length
+        · simp only [hle, ↓reduceIte]
+          refine ⟨?_, ?_, ?_⟩
+          · simp only [List.length_drop]; omega
+          · intro _; simp only [List.length_drop]; omega
+          · intro hh; exact absurd rfl hh
+        · simp only [hle, ↓reduceIte]
+          have ih := WL_decode_owed fuel { inner := inner', state := .discarding (rem - consumed - src'.length) e } []
+            (rem - consumed - src'.length) rfl (by simp)
+          refine ⟨?_, ?_, ?_⟩
+          · have := ih.len; simp only [List.length_nil] at this; omega
+          · intro hh
+            have := ih.done hh
+            have hl := ih.len
+            simp only [List.length_nil] at this hl
+            omega
+          · intro hh
+            obtain ⟨i1, i2, i3⟩ := ih.more hh
+            have hl := ih.len
+            simp only [List.length_nil] at i1 i2 hl
+            refine ⟨?_, ?_, i3⟩
+            · rw [i1]; congr 1; omega
+            · omega
+      cases o with
+      | value v =>
+        simp only
+        have ih := WL_decode_owed fuel { inner := inner', state := .afterBody (rem - consumed) (.value v) } src'
+          (rem - consumed) rfl (by simp)
+        refine ⟨?_, ?_, ?_⟩
+        · have := ih.len; omega
+        · intro hh; have := ih.done hh; have hl := ih.len; omega
+        · intro hh
+          obtain ⟨i1, i2, i3⟩ := ih.more hh
+          have hl := ih.len
+          refine ⟨?_, ?_, i3⟩
+          · rw [i1]; congr 1; omega
+          · omega
+      | none =>
+        simp only
+        refine ⟨?_, ?_, ?_⟩
+        · exact c1
+        · intro hh; cases hh
+        · intro _
+          refine ⟨?_, ?_, rfl⟩
+          · show some (rem - consumed) = some (rem - (src.length - src'.length)); congr 1; omega
+          · show src.length - src'.length ≤ rem; omega
+      | err => exact herr .err
+      | panic => exact herr .panic
+      | fuel => exact herr .fuel
+
+
+/-- **A frame costs its header and exactly its announced length.**  One `decode` call on a decoder that is between
+frames: with fewer than 8 bytes nothing happens; otherwise the frame announces `n = beNat (first 8 bytes)`, it is
+finished exactly when `8 + n` bytes have been taken, and until then nothing is delivered. -/
+theorem WL_frame (fuel : Nat) (w : WL) (src : List Nat) (hw : w.state = .header) (h8 : 8 ≤ src.length) :
+    let res := WL.decode (fuel + 1) w src
+    res.2.1.length ≤ src.length ∧
+    (res.1.state = .header → src.length - res.2.1.length = 8 + beNat (src.take 8)) ∧
+    (res.1.state ≠ .header →
+      res.1.state.owed = some (8 + beNat (src.take 8) - (src.length - res.2.1.length)) ∧
+      src.length - res.2.1.length ≤ 8 + beNat (src.take 8) ∧ res.2.2 = .none) := by
+  have hlt : ¬ src.length < 8 := by omega
+  simp only [WL.decode, hw, hlt, ↓reduceIte]
+  have ih := WL_decode_owed fuel { w with state := .body (beNat (src.take 8)) } (src.drop 8) (beNat (src.take 8)) rfl
+    (by simp)
+  have hl := ih.len
+  simp only [List.length_drop] at hl
+  refine ⟨by omega, ?_, ?_⟩
+  · intro hh
+    have := ih.done hh
+    simp only [List.length_drop] at this
+    omega
+  · intro hh
+    obtain ⟨i1, i2, i3⟩ := ih.more hh
+    simp only [List.length_drop] at i1 i2
+    refine ⟨?_, ?_, i3⟩
+    · rw [i1]; congr 1; omega
+    · omega
+
 end SwimVerif.ReconInc
